@@ -322,14 +322,20 @@ func runHistory(ops []cliOp) (problems []string, canon string, applicable bool) 
 				}
 				for _, v := range files {
 					vi, _ := strconv.Atoi(v)
-					if w.files[v].empty {
-						continue
-					}
 					partial := false
 					for _, r := range cfg.Revs {
 						if r.V == v && r.Partial {
 							partial = true
 						}
+					}
+					if w.files[v].empty {
+						if partial {
+							// a file whose first statements were applied was replaced by one that holds
+							// none: its applied part has changed, the run is refused (property C12).
+							wantFail = true
+							break
+						}
+						continue
 					}
 					if !partial {
 						expect[vi*10+1]++
